@@ -42,6 +42,26 @@ SELFTEST = [
     {"mutation": "BackoffStorage::heartbeat: cursor += 2", "caught_by": "cursor/advances one slot modulo ring length"},
 ]
 
+# one-edit source variants for the thorough-tier sensitivity self-test (vrules/selftest.py); each must be reported
+MUTANTS = [
+    {"name": 'shorter backoff overwrites a longer one', "file": 'protocols/gossipsub/src/backoff.rs',
+     "find": '                if backoff < &instant {',
+     "replace": '                if backoff > &instant {',
+     "expect": 'update/overwrite only when the stored backoff is earlier', "why": 'a second, shorter PRUNE backoff shortens the running one'},
+    {"name": 'expiry test inverted', "file": 'protocols/gossipsub/src/backoff.rs',
+     "find": '.map(|backoff| backoff > now)',
+     "replace": '.map(|backoff| backoff < now)',
+     "expect": 'expiry/keep', "why": 'running backoffs are dropped at their first slot visit'},
+    {"name": 'GRAFT during backoff accepted', "file": 'protocols/gossipsub/src/behaviour.rs',
+     "find": '                && backoff_time > now\n',
+     "replace": '                && backoff_time < now\n',
+     "expect": 'graft/', "why": 'backed-off peer is grafted and an expired one penalised'},
+    {"name": 'query polarity', "file": 'protocols/gossipsub/src/backoff.rs',
+     "find": '.is_some_and(|m| m.contains_key(peer))',
+     "replace": '.is_some_and(|m| !m.contains_key(peer))',
+     "expect": 'query/is_backoff_with_slack', "why": 'backed-off peers look eligible'},
+]
+
 
 def _derived_from_backoffs(body, e, up=None):
     """expression (after expanding named locals) reads the `backoffs` field / upvar"""
